@@ -383,16 +383,57 @@ func (a Float) M__complex__() (Object, error) {
 }
 
 func (a Float) M__round__(digitsObj Object) (Object, error) {
-	digits := 0
-	if digitsObj != None {
-		var err error
-		digits, err = MakeGoInt(digitsObj)
-		if err != nil {
-			return nil, err
-		}
+	f := float64(a)
+	if digitsObj == None {
+		// Nearest integer, halves to even, as an int
+		return Float(math.RoundToEven(f)).M__int__()
 	}
-	scale := Float(math.Pow(10, float64(digits)))
-	return scale * Float(math.Floor(float64(a)/float64(scale))), nil
+	digits, err := MakeGoInt(digitsObj)
+	if err != nil {
+		return nil, err
+	}
+	if math.IsNaN(f) || math.IsInf(f, 0) || f == 0 {
+		return a, nil
+	}
+	// A float has no more than 1074 fractional binary digits and is
+	// less than 1e309
+	if digits > 1100 {
+		return a, nil
+	}
+	if digits < -310 {
+		return Float(math.Copysign(0, f)), nil
+	}
+	// Round the exact value of a to a multiple of 10**-digits, halves
+	// to even, then take the nearest float
+	n := digits
+	if n < 0 {
+		n = -n
+	}
+	scale := new(big.Rat).SetInt(new(big.Int).Exp(big.NewInt(10), big.NewInt(int64(n)), nil))
+	x := new(big.Rat).SetFloat64(f)
+	if digits >= 0 {
+		x.Mul(x, scale)
+	} else {
+		x.Quo(x, scale)
+	}
+	q, rem := new(big.Int).DivMod(x.Num(), x.Denom(), new(big.Int)) // floor, rem >= 0
+	if c := rem.Lsh(rem, 1).Cmp(x.Denom()); c > 0 || (c == 0 && q.Bit(0) == 1) {
+		q.Add(q, big.NewInt(1))
+	}
+	x.SetInt(q)
+	if digits >= 0 {
+		x.Quo(x, scale)
+	} else {
+		x.Mul(x, scale)
+	}
+	res, _ := x.Float64()
+	if math.IsInf(res, 0) {
+		return nil, ExceptionNewf(OverflowError, "rounded value too large to represent")
+	}
+	if res == 0 {
+		res = math.Copysign(0, f)
+	}
+	return Float(res), nil
 }
 
 // Rich comparison
